@@ -10121,8 +10121,17 @@ func (p *parser) recordDeclaredSymbol(ref ast.Ref) {
 
 	// Check whether this symbol was hoisted out of a nested scope into the module scope
 	if !isTopLevel {
-		if symbol := p.symbols[ref.InnerIndex]; symbol.Kind.IsHoisted() && p.moduleScope.Members[symbol.OriginalName].Ref == ref {
-			isTopLevel = true
+		if symbol := p.symbols[ref.InnerIndex]; symbol.Kind.IsHoisted() {
+			// The symbol may also have been merged into a symbol that's already
+			// declared in the module scope (e.g. a top-level "var" with the same
+			// name). In that case this is another declaration of that symbol.
+			hoistedRef := ref
+			for p.symbols[hoistedRef.InnerIndex].Link != ast.InvalidRef {
+				hoistedRef = p.symbols[hoistedRef.InnerIndex].Link
+			}
+			if p.moduleScope.Members[symbol.OriginalName].Ref == hoistedRef {
+				isTopLevel = true
+			}
 		}
 	}
 
@@ -18821,6 +18830,21 @@ func (p *parser) toAST(before, parts, after []js_ast.Part, hashbang string, dire
 					}
 					p.topLevelSymbolToParts[ref] = append(
 						p.topLevelSymbolToParts[ref], uint32(partIndex))
+				}
+			}
+		}
+
+		// Uses of a symbol that was merged into another symbol are recorded using
+		// the original symbol. Make sure that they still depend on all parts that
+		// declare the symbol at the end of the linked list.
+		for _, part := range parts {
+			for _, declared := range part.DeclaredSymbols {
+				if declared.IsTopLevel && p.symbols[declared.Ref.InnerIndex].Link != ast.InvalidRef {
+					ref := declared.Ref
+					for p.symbols[ref.InnerIndex].Link != ast.InvalidRef {
+						ref = p.symbols[ref.InnerIndex].Link
+					}
+					p.topLevelSymbolToParts[declared.Ref] = p.topLevelSymbolToParts[ref]
 				}
 			}
 		}
